@@ -610,3 +610,73 @@ Section HeightTransfer.
     apply mxh_les_app; [exact (mxh_from_ast_sel n x Hx p)|exact IH].
   Qed.
 End HeightTransfer.
+
+(* ---------- the document: the walk stays below the nesting height bound ---------- *)
+Lemma xf_document_hi s d b hi : xv_r_no_fragment_cycles d = true ->
+  (forall k f, In (k, f) (xv_frags d) -> xv_is_some (sch_get_type s (xv_frag_cond f)) = true) ->
+  mxn_document s d = Some (b, hi) -> (hi <= xf_doc_height d)%nat.
+Proof.
+  intros Hc Hconds. pose proof (xf_no_cycles d Hc) as Hac. rewrite mxn_document_fold.
+  assert (Hassoc : forall n, xv_assoc n (mx_fragments s (xv_frags d) []) =
+            option_map (fun f => (xv_frag_cond f, mx_from_ast s (xv_frag_cond f) (xv_frag_sels f))) (xv_assoc n (xv_frags d))).
+  { intros n. rewrite (mx_fragments_assoc s (xv_frags d) [] n Hconds). reflexivity. }
+  assert (Hfold : forall ops, incl ops (xv_ops d) -> forall st st', (snd st <= xf_doc_height d)%nat ->
+            fold_left (mxd_stepn s d) ops (Some st) = Some st' -> (snd st' <= xf_doc_height d)%nat).
+  { induction ops as [|o ops IH]; intros Hincl st st' Hst; cbn [fold_left]; [intros [= <-]; exact Hst|].
+    unfold mxd_stepn at 2. destruct (xv_root s (xo_type o)) as [r|]; [|apply IH; [intros x Hx; apply Hincl; right; exact Hx|exact Hst]].
+    destruct (mxn_validate_operation s (mx_fragments s (xv_frags d) []) st (r, mx_from_ast s r (xo_sels o))) as [st1|] eqn:E;
+      [|rewrite mxd_foldn_none; discriminate].
+    apply IH; [intros x Hx; apply Hincl; right; exact Hx|].
+    assert (Hd : (xv_sels_depth (xo_sels o) <= xf_doc_depth d)%nat).
+    { apply xf_fold_max_in. apply in_or_app. left. apply in_map_iff. exists o. split; [reflexivity|apply Hincl; left; reflexivity]. }
+    pose proof (xh_bound (xv_frags d) Hac (xf_doc_depth d) (xf_frag_depth d) (xo_sels o) Hd) as Hh. fold (xf_doc_height d) in Hh.
+    pose proof (mxh_from_ast s (xv_frags d) _ Hassoc _ _ r Hh) as Hm.
+    pose proof (mxh_validate_hi s _ st (r, mx_from_ast s r (xo_sels o)) st1 (xf_doc_height d) Hm E). lia. }
+  intros E. exact (Hfold (xv_ops d) (incl_refl _) mxn_initial (b, hi) (Nat.le_0_l _) E).
+Qed.
+
+(* goals 2-4 at full strength: over a schema whose field types are defined and whose root operation types are
+   composite, for a document that passes the other rules named here and is within apollo-compiler's limits as
+   Valid.v states them (xv_within_limits), the literal field-merging algorithm of selection.rs gives exactly the
+   verdict of the specification's FieldsInSetCanMerge rule (5.3.2) *)
+Theorem xing_equiv_full s d :
+  xr_schema_ok s ->
+  xv_r_fields_defined s d = true -> xv_r_leaf_selections s d = true -> xv_r_argument_unique s d = true ->
+  xv_r_input_field_unique s d = true -> xv_r_fragment_type_exists s d = true -> xv_r_fragment_on_composite s d = true ->
+  xv_r_root_operation_defined xv_apollo_params s d = true ->
+  xv_r_fragment_name_unique d = true -> xv_r_fragments_used d = true -> xv_r_no_fragment_cycles d = true ->
+  xv_within_limits d = true ->
+  mx_document_ok s d = Some (xv_r_fields_merge s d).
+Proof.
+  intros Hs R1 R2 R3 R4 R5 R6 R7 R8 R9 R10 Hlim.
+  destruct (mxn_document s d) as [[b hi]|] eqn:En; [|exfalso; exact (mxn_document_some s d En)].
+  assert (Hconds : forall k f, In (k, f) (xv_frags d) -> xv_is_some (sch_get_type s (xv_frag_cond f)) = true).
+  { intros k f Hkf. unfold xv_r_fragment_type_exists in R5. rewrite forallb_forall in R5. apply R5.
+    unfold xv_type_conditions. apply in_or_app. left. apply in_map_iff. exists (k, f). auto. }
+  pose proof (xf_document_hi s d b hi R10 Hconds En) as Hhi.
+  unfold xv_within_limits in Hlim. apply andb_true_iff in Hlim. destruct Hlim as [_ Hlim]. apply Nat.leb_le in Hlim.
+  pose proof (xf_doc_height_fuel d) as Hf.
+  apply (xing_equiv_rules s d b hi Hs R1 R2 R3 R4 R5 R6 R7 R8 R9 R10 (xf_verdict_defined s d R10) En).
+  unfold mx_field_depth_limit. lia.
+Qed.
+
+Theorem xing_equiv_nomemo_full s d b hi :
+  xr_schema_ok s ->
+  xv_r_fields_defined s d = true -> xv_r_leaf_selections s d = true -> xv_r_argument_unique s d = true ->
+  xv_r_input_field_unique s d = true -> xv_r_fragment_type_exists s d = true -> xv_r_fragment_on_composite s d = true ->
+  xv_r_root_operation_defined xv_apollo_params s d = true ->
+  xv_r_fragment_name_unique d = true -> xv_r_fragments_used d = true -> xv_r_no_fragment_cycles d = true ->
+  xv_within_limits d = true ->
+  mxn_document s d = Some (b, hi) -> b = xv_r_fields_merge s d /\ (hi <= mx_field_depth_limit)%nat.
+Proof.
+  intros Hs R1 R2 R3 R4 R5 R6 R7 R8 R9 R10 Hlim En.
+  assert (Hconds : forall k f, In (k, f) (xv_frags d) -> xv_is_some (sch_get_type s (xv_frag_cond f)) = true).
+  { intros k f Hkf. unfold xv_r_fragment_type_exists in R5. rewrite forallb_forall in R5. apply R5.
+    unfold xv_type_conditions. apply in_or_app. left. apply in_map_iff. exists (k, f). auto. }
+  pose proof (xf_document_hi s d b hi R10 Hconds En) as Hhi.
+  unfold xv_within_limits in Hlim. apply andb_true_iff in Hlim. destruct Hlim as [_ Hlim]. apply Nat.leb_le in Hlim.
+  pose proof (xf_doc_height_fuel d) as Hf.
+  assert (Hl : (hi <= mx_field_depth_limit)%nat) by (unfold mx_field_depth_limit; lia).
+  split; [|exact Hl].
+  exact (xing_equiv_nomemo_rules s d b hi Hs R1 R2 R3 R4 R5 R6 R7 R8 R9 R10 (xf_verdict_defined s d R10) En Hl).
+Qed.
